@@ -21,7 +21,8 @@ Colls(D) == {a \in Own(D) \cup ToSet(D.inh) : a.fam # "none"}
 Taken(D, n) == D.sing[n] \in AllNames(D) \/ \E b \in Colls(D) : b.n # n /\ D.sing[b.n] = D.sing[n]
 ItemName(D, n) == IF ~Taken(D, n) THEN D.sing[n] ELSE n \o "_item"
 Collision(D, n) == Taken(D, n) /\ (n \o "_item") \in AllNames(D)
-RaisesRuntimeError(D) == \E a \in Colls(D) : Collision(D, a.n)
+\* ... and the names finally chosen for two collections must differ (a fallback may run into another collection's singular form)
+RaisesRuntimeError(D) == (\E a \in Colls(D) : Collision(D, a.n)) \/ (\E a, b \in Colls(D) : a.n # b.n /\ ItemName(D, a.n) = ItemName(D, b.n))
 Scalar(D, n) == {"with_" \o n, "update_" \o n, "transform_" \o n, "reset_" \o n}
 Elem(D, n)   == {"with_" \o ItemName(D, n), "update_" \o ItemName(D, n), "transform_" \o ItemName(D, n), "without_" \o ItemName(D, n)}
 \* an inherited collection whose singular now names a new attribute gets its element helpers again under the fallback name
